@@ -46,9 +46,15 @@ Proof. unfold FUEL. cbn -[finish]. rewrite finish_total. destruct hd; reflexivit
 Lemma drain_request ri c a :
   drain FUEL [IRequest ri] c a
   = Some (fin c,
-          EDispatch :: EWrite (a_app a) (resp_version (rver ri)) (negb (keepalive ri)) (is_head ri)
-            :: (if negb (keepalive ri) then [EClose] else []), []).
-Proof. unfold FUEL. cbn -[finish]. destruct (is_head ri); rewrite finish_total; destruct (keepalive ri); reflexivity. Qed.
+          match a_app a with
+          | Ret st => EDispatch :: EWrite st (resp_version (rver ri)) (negb (keepalive ri)) (is_head ri)
+                        :: (if negb (keepalive ri) then [EClose] else [])
+          | Raise => [EDispatch; EWrite 500 (resp_version (rver ri)) true (is_head ri); EClose]
+          end, []).
+Proof.
+  unfold FUEL. destruct (a_app a) eqn:A; cbn -[finish]; rewrite A; cbn -[finish];
+    destruct (is_head ri); rewrite finish_total; try destruct (keepalive ri); reflexivity.
+Qed.
 
 Lemma drain_exc c a :
   drain FUEL [IExc SRead] c a
@@ -130,7 +136,7 @@ Proof.
   - rewrite drain_close. constructor.
   - rewrite drain_httperror. cbn. apply sh_reject; [|apply resp_version_ok].
     cbn in *. intuition.
-  - rewrite drain_request. cbn. apply sh_request. apply resp_version_ok.
+  - rewrite drain_request. cbn. destruct (a_app a); [apply (sh_request 500 _ true)|apply sh_request]; apply resp_version_ok.
 Qed.
 
 (* corollaries in the words of the property *)
